@@ -14,7 +14,7 @@ FUNCTIONS = [
     "FlatHeightMap.get_depth_at",
 ]
 BOUNDS = ("ONLY the plain-Python logic around the compiled interpolators. (1) _filter_points of both "
-          "map types on N = 2..6 (quick 2..5) points with symbolic heights and a symbolic tolerance "
+          "map types on N = 2..8 (quick 2..5) points with symbolic heights and a symbolic tolerance "
           ">= 0: the result starts with the first and ends with the last point, is an in-order "
           "subsequence of the samples, every dropped sample differs from the previously kept height "
           "by less than the tolerance and every kept inner sample by at least the tolerance. "
@@ -306,7 +306,7 @@ def cells(tier):
     out = []
     quick = tier == "quick"
     for kind in ("raster", "sparse"):
-        for n in range(2, 6 if quick else 7):
+        for n in range(2, 6 if quick else 9):
             for via in (False, True):
                 if quick and via and n not in (3, 4):
                     continue
